@@ -497,4 +497,103 @@ theorem describeSzx_model (conv : Spec.HaltConv) (inflate : Bytes → Option Byt
         exact ⟨mid, rfl, by rw [← hd, foldl_applyChunk_model]⟩
       · cases hd
 
+/-! ### the pending prefix survives every chunk (any repair setting) -/
+
+theorem optE_ok (o : Option Machine) (m' : Machine) (h : optE o = .ok m') : o = some m' := by
+  cases o with
+  | none => cases h
+  | some x => cases h; rfl
+
+theorem szxAY_cpu (fx : Fixes) (mid : Nat) (d : Bytes) (m m' : Machine)
+    (h : szxAY fx mid d m = some m') : m'.cpu = m.cpu := by
+  unfold szxAY at h
+  by_cases h1 : d.length < 1
+  · rw [if_pos h1] at h; cases h
+  · rw [if_neg h1] at h
+    simp only at h
+    generalize hm1 : (if mid < 2 then ({ m with ayEnabled := d.getD 0 0 &&& 2 != 0 } : Machine) else m) = m1 at h
+    have hc : m1.cpu = m.cpu := by subst hm1; split <;> rfl
+    by_cases hen : m1.ayEnabled = true
+    · simp only [hen, Bool.not_true, Bool.false_eq_true, if_false] at h
+      by_cases h18 : d.length < 18
+      · rw [if_pos h18] at h; cases h
+      · rw [if_neg h18] at h
+        simp only [Option.some.injEq] at h
+        rw [← h, ← hc]; rfl
+    · have hf : m1.ayEnabled = false := by simpa using hen
+      simp only [hf, Bool.not_false, if_true, Option.some.injEq] at h
+      rw [← h]; exact hc
+
+theorem szxChunk_pfx (fx : Fixes) (inflate : Bytes → Option Bytes) (mid : Nat) (id d : Bytes) (m m' : Machine)
+    (h : szxChunk fx inflate mid id d m = .ok m') : m'.cpu.pfx = m.cpu.pfx := by
+  unfold szxChunk at h
+  simp only at h
+  split at h
+  · have := optE_ok _ _ h
+    unfold szxCRTR at this; split at this <;> cases this; rfl
+  split at h
+  · have := optE_ok _ _ h
+    unfold szxZ80R at this
+    split at this
+    · cases this
+    · simp only at this
+      split at this
+      · cases this
+      · cases this; rfl
+  split at h
+  · have := optE_ok _ _ h
+    unfold szxSPCR at this
+    split at this
+    · cases this
+    · simp only at this
+      split at this
+      · cases this
+      · simp only [Option.some.injEq] at this
+        subst this
+        have c1 := (restore7ffd_same fx m (if mid < 2 then 0 else d.getD 1 0)).1
+        split
+        · show (Machine.restore7ffd fx m _).cpu.pfx = _; rw [c1]
+        · show (Machine.restore7ffd fx m _).cpu.pfx = _; rw [c1]
+  split at h
+  · have := optE_ok _ _ h
+    rw [szxAY_cpu fx mid d m m' this]
+  split at h
+  · have := optE_ok _ _ h
+    unfold szxKEYB at this; split at this <;> cases this; rfl
+  split at h
+  · have := optE_ok _ _ h
+    unfold szxAMXM at this; split at this <;> cases this; rfl
+  split at h
+  · unfold szxRAMP at h
+    split at h
+    · cases h
+    · simp only at h
+      split at h
+      · cases h
+      · split at h
+        · split at h
+          · cases h
+          · split at h <;> cases h; rfl
+        · split at h <;> cases h; rfl
+  · cases h; rfl
+
+theorem szxWalk_pfx (fx : Fixes) (inflate : Bytes → Option Bytes) (mid : Nat) :
+    ∀ (fuel : Nat) (f : Bytes) (m m' : Machine), szxWalk fx inflate mid fuel f m = .ok m' →
+      m'.cpu.pfx = m.cpu.pfx := by
+  intro fuel
+  induction fuel with
+  | zero => intro f m m' h; simp only [szxWalk] at h; cases h; rfl
+  | succ fuel ih =>
+    intro f m m' h
+    unfold szxWalk at h
+    split at h
+    · cases h; rfl
+    · simp only at h
+      split at h
+      · cases h
+      · split at h
+        · cases h
+        · next m1 hc =>
+          rw [ih _ _ _ h, szxChunk_pfx _ _ _ _ _ _ _ hc]
+
 end ZxVerif.Snap
